@@ -81,8 +81,9 @@ def gen_mesh(rng, etype, dims, spacing_max=3, jitter=True, map_name='id', id_mod
             for k in range(nz - 1):
                 if etype == 'hex':
                     loc = [(i + a, j + b, k + c) for a, b, c in HEX_LOCAL]
-                    p = [lat[x] for x in loc]
-                    if det3(sub(p[1], p[0]), sub(p[3], p[0]), sub(p[4], p[0])) < 0:
+                    # orientation from the map (a jittered corner can have a
+                    # negative Jacobian although the cell is fine)
+                    if det3(M[0], M[1], M[2]) < 0:
                         loc = loc[4:] + loc[:4]
                     conn.append([nid[x] for x in loc])
                 else:
